@@ -127,3 +127,20 @@ Definition spec_addr_info (m : list sym) (a : Z) (r : option string) : bool :=
               existsb (fun s => greatest_le m a s && sym_is_data s && (sym_end s <=? a)) m
     end
   else true.
+
+(* ---------------- addr2line names repaired from nm ---------------- *)
+Fixpoint strs_eqb (a b : list string) : bool :=
+  match a, b with
+  | [], [] => true
+  | x :: a', y :: b' => String.eqb x y && strs_eqb a' b'
+  | _, _ => false
+  end.
+
+(* The nm symbol consulted is the one containing the RUNTIME address [addr] in the table keyed by
+   runtime addresses ([tab] = link addresses + base): the frames returned must be the replacement
+   rule applied to SOME answer the lookup specification accepts for [addr] in [tab]. *)
+Definition spec_a2l_fixup (tab : list sym) (addr : Z) (stack out : list string) : bool :=
+  if sortedb tab then
+    existsb (fun r => spec_addr_info tab addr r && strs_eqb out (a2l_apply_nm r stack))
+            (None :: map (fun s => Some (sy_name s)) tab)
+  else true.
